@@ -8,8 +8,9 @@ Open Scope Z_scope.
 (** accounts of a scenario: 0 signer, 1 fee collector, 2 R, 3 X, 4 B, 5 N, 6 Y, 7 B2, 8 C3, 9 D, 10 and 11 second and third signer,
     12 factory F, 13 the address of F's next creation, 14 wasm contract W (32-byte address),
     15 PH = the 20-byte account made of the last 20 bytes of W, 16 the EVM module account (where SetAccBalance mints and
-    burns), 17 script contract Z, 18 the x/distribution module account (blocked by the bank, like 1 and 16) *)
-Definition universe : list nat := [0; 1; 2; 3; 4; 5; 6; 7; 8; 9; 10; 11; 12; 13; 14; 15; 16; 17; 18]%nat.
+    burns), 17 script contract Z, 18 the x/distribution module account (blocked by the bank, like 1 and 16),
+    19 RW = reflect.wasm instance owned by Z (32-byte bank address) *)
+Definition universe : list nat := [0; 1; 2; 3; 4; 5; 6; 7; 8; 9; 10; 11; 12; 13; 14; 15; 16; 17; 18; 19]%nat.
 Definition evm_module : nat := 16%nat.
 
 Record otx := {
